@@ -1,6 +1,8 @@
 (* C06 — proof-number solver verdicts agree with the game-theoretic truth.
    Only statements, `exact`, and Print Assumptions live here.  Models: Pn.v (prove/pn.go without PN-squared; entry point
-   PnRun.pn_run with the constants of /repo), Dfpn.v (prove/dfpn.go).  Proofs: AndOr.v, AndOrS.v, PnFacts.v, PnRunFacts.v, DfpnFacts.v, DfpnFactsL.v; non-vacuity examples: PnRunFacts.v, DfpnExample.v.
+   PnRun.pn_run with the constants of /repo), Pn2.v (prove/pn.go with the PN-squared switch; entry point Pn2Run.pn2_run),
+   Dfpn.v (prove/dfpn.go).  Proofs: AndOr.v, AndOrS.v, PnFacts.v, PnRunFacts.v, Pn2Facts.v, Pn2RunFacts.v, DfpnFacts.v,
+   DfpnFactsL.v; non-vacuity examples: PnRunFacts.v, Pn2RunFacts.v, DfpnExample.v.
 
    The game the claims are about (PnFacts.v), for the attacker colour aw:
      succs basis p   legal successors of p: every move of AllMoves that Position.Move accepts
@@ -11,6 +13,7 @@
                   the line is not a win (AndOrS.v). *)
 From Coq Require Import NArith ZArith List Bool.
 Require Import Board Move GameOver Eval Search AndOr AndOrS Pn PnRun PnFacts PnRunFacts Dfpn DfpnFacts DfpnFactsL.
+Require Import Pn2 Pn2Run Pn2Facts Pn2RunFacts.
 Require Import Generated.Consts.
 Import ListNotations.
 Open Scope N_scope.
@@ -130,10 +133,65 @@ Theorem C06_dfpn_disproven_sound_norep_partial :
 Proof. exact dfpn_disproven_sound_norep. Qed.
 Print Assumptions C06_dfpn_disproven_sound_norep_partial.
 
+(* 7. PN-squared (Config.PN2), model Pn2.v: once the first-level counter Stats.Nodes exceeds pn2Threshold, expand() runs a
+   second-level search from the selected node instead of generating its children (own counters, node limit
+   Live^2/MaxNodes - 0 meaning none -, the node in the role of the root, positions / depth / repetition along the node's
+   line of play from the real root), copies the node's numbers, value and depth statistic back, keeps the node's children
+   as unexpanded leaves WITH the numbers the second level gave them, and - because that search wrote into the node in
+   place - does not recompute the ancestors of a node it leaves unsolved; iterations resume at the node where
+   updateAncestors stopped.  pn2_invariant: every tree the first-level loop reaches satisfies Pn2Facts.pok2 = PnFacts.pok
+   (block 2: proof number 0 -> forced win, disproof number 0 -> not won on the line of play within MaxDepth, children are
+   legal moves, an unsolved expanded node has a child for every legal move) except that a node's value (set by evaluate,
+   and by pn2 when its search solves the node) carries its claim directly: value proven -> forced win, value disproven ->
+   not won on the line; for any threshold, either setting of the switch, any fuel. *)
+Theorem C06_pn2_invariant :
+  forall basis cfg threshold pn2on k2 dfuel2 (p0 : position) k dfuel t s w,
+    size p0 <= 8 ->
+    search2 basis (to_move_white p0) cfg (pn2_hook basis (to_move_white p0) cfg threshold pn2on k2 dfuel2) k dfuel
+            [(p0, false)] (root_node cfg (to_move_white p0) p0) (s_of stats0) [] = (t, s, w) ->
+    pok2 basis cfg (to_move_white p0) t [(p0, false)].
+Proof. exact pn2_invariant. Qed.
+Print Assumptions C06_pn2_invariant.
+
+(* 8. pn2_verdict_sound, for Prover.Prove as modelled by Pn2Run.pn2_run (PN2 on or off, any node limit - halved by Prove
+   when PN2 is on -, PreserveSolved, MaxDepth, any fuel of either level), boards up to 8x8, attacker = side to move: the
+   verdicts are sound in exactly the sense of block 3 (proven -> forced win and the returned move keeps it; disproven ->
+   no win within MaxDepth plies on the empty line of play under the repetition rule; unknown -> no claim).
+   Pn2Run.pn2_run = pn2_run_at 1000 (pn2Threshold of pn.go); the theorem holds for every threshold.  Non-vacuity:
+   Pn2RunFacts.ex2_proven / ex2_disproven are runs (threshold 10, so that vm_compute can afford them) that enter the second
+   level (2 and 8 second-level searches) and end proven with a move / disproven; the extracted driver of the check runs
+   pn2_run with the real threshold on inputs where the solver enters the second level. *)
+Theorem C06_pn2_verdict_sound_any_threshold :
+  forall threshold iters dfuel k2 dfuel2 maxnodes preserve maxdepth pn2 (p : position) root s result mv why,
+    size p <= 8 ->
+    pn2_run_at threshold iters dfuel k2 dfuel2 maxnodes preserve maxdepth pn2 p = (root, s, result, mv, why) ->
+    let aw := to_move_white p in
+    let won q := exists n, wn position (succs gen_basis) (terminal aw) (attp aw) n q = true in
+    (result = 1 -> won p /\ (mT mv <> 0 -> exists q, pmv gen_basis p mv = Ok q /\ In mv (all_moves p) /\ won q)) /\
+    (result = 2 -> ~ ((0 <= eff_maxdepth maxdepth)%Z /\
+                      Wb position pos_equal (succs gen_basis) (terminal aw) (attp aw) (Z.to_nat (eff_maxdepth maxdepth - 0)) [] p)).
+Proof. exact pn2_run_at_verdict_sound. Qed.
+Print Assumptions C06_pn2_verdict_sound_any_threshold.
+
+Theorem C06_pn2_verdict_sound :
+  forall iters dfuel k2 dfuel2 maxnodes preserve maxdepth pn2 (p : position) root s result mv why,
+    size p <= 8 ->
+    pn2_run iters dfuel k2 dfuel2 maxnodes preserve maxdepth pn2 p = (root, s, result, mv, why) ->
+    let aw := to_move_white p in
+    let won q := exists n, wn position (succs gen_basis) (terminal aw) (attp aw) n q = true in
+    (result = 1 -> won p /\ (mT mv <> 0 -> exists q, pmv gen_basis p mv = Ok q /\ In mv (all_moves p) /\ won q)) /\
+    (result = 2 -> ~ ((0 <= eff_maxdepth maxdepth)%Z /\
+                      Wb position pos_equal (succs gen_basis) (terminal aw) (attp aw) (Z.to_nat (eff_maxdepth maxdepth - 0)) [] p)).
+Proof. exact pn2_run_verdict_sound. Qed.
+Print Assumptions C06_pn2_verdict_sound.
+
 (* Not proved (tested by the check: model = solver on every generated run, oracle = exact retrograde solution):
      the move returned by DFPN with `proven` (the oracle judges it);
      dfpn_disproven_sound for runs WITH repetitions: open in the design (a bound derived from a repetition on one path is
                             stored in the table and reused on other paths); the oracle hunts for a wrong `disproven` on
                             the cyclic region of the solved graphs (positions where the attacker can only shuffle - the
                             only roots where the search meets repetitions) and has found none;
-     PN-squared (the model has no PN-squared). *)
+     that Pn2.v with the switch off computes what Pn.v computes (compared by the driver, whole tree and counters, on
+                            every plain PN case of the check);
+     the corollaries of block 4 for the PN-squared model (they follow from block 8 exactly as block 4 follows from block 3,
+                            under the same congruence hypothesis). *)
